@@ -12,6 +12,7 @@ import (
 	"github.com/biogo/biogo/alphabet"
 	"github.com/biogo/biogo/feat"
 	"github.com/biogo/biogo/seq/linear"
+	"pgregory.net/rapid"
 )
 
 // MatSpec is a compact description of a scoring matrix (see Build).
@@ -31,6 +32,70 @@ type Case struct {
 	Mat      MatSpec `json:"mat"`
 	GapOpen  int     `json:"gap_open"`
 	QLetters bool    `json:"qletters"`
+	// Oversize: the matrix handed to the aligner is square with this many
+	// rows and columns more than the alphabet has letters (the surplus cells
+	// hold junk no letter can select).
+	Oversize int `json:"oversize,omitempty"`
+	// PreMat, PreR, PreQ: when PreMat is set the very same matrix object and
+	// aligner value are first used, holding PreMat's scores, to align PreR
+	// with PreQ; the matrix is then overwritten in place with Mat's scores
+	// and the case proper is aligned. Nothing of the first use may survive.
+	PreMat *MatSpec `json:"pre_mat,omitempty"`
+	PreR   string   `json:"pre_r,omitempty"`
+	PreQ   string   `json:"pre_q,omitempty"`
+}
+
+// GenUsage draws the two usage dimensions above for a case whose other
+// fields are already drawn.
+func GenUsage(t *rapid.T, c *Case, pool string, genMat func(*rapid.T) MatSpec) {
+	if rapid.IntRange(0, 4).Draw(t, "oversize-matrix") == 0 {
+		c.Oversize = rapid.IntRange(1, 3).Draw(t, "oversize")
+	}
+	if rapid.IntRange(0, 4).Draw(t, "matrix-reused") == 0 {
+		pm := genMat(t)
+		c.PreMat = &pm
+		b := func(label string) string {
+			n := rapid.IntRange(1, 8).Draw(t, label+"-len")
+			x := make([]byte, n)
+			for i := range x {
+				x[i] = pool[rapid.IntRange(0, len(pool)-1).Draw(t, label)]
+			}
+			return string(x)
+		}
+		c.PreR, c.PreQ = b("pre-r"), b("pre-q")
+	}
+}
+
+// UsageClasses labels the usage dimensions for the histograms.
+func (c Case) UsageClasses() []string {
+	var l []string
+	if c.Oversize > 0 {
+		l = append(l, "matrix-larger-than-alphabet")
+	}
+	if c.PreMat != nil {
+		l = append(l, "matrix-object-reused-after-edit-in-place")
+	}
+	return l
+}
+
+// Matrix builds the matrix object handed to the library: Mat's scores in the
+// leading n x n cells of an (n+Oversize)-square matrix.
+func (c Case) Matrix(spec MatSpec) [][]int {
+	n := Alpha(c.Alpha).Len()
+	core := spec.Build(n)
+	N := n + c.Oversize
+	out := make([][]int, N)
+	for i := range out {
+		out[i] = make([]int, N)
+		for j := range out[i] {
+			if i < n && j < n {
+				out[i][j] = core[i][j]
+			} else {
+				out[i][j] = (7*i+11*j)%25 - 12
+			}
+		}
+	}
+	return out
 }
 
 func (c Case) Affine() bool { return strings.HasSuffix(c.Aligner, "Affine") }
@@ -367,9 +432,23 @@ func Plain(ps []feat.Pair) ([]Pair, error) {
 
 // Run aligns the case with the library.
 func (c Case) Run() ([]Pair, []feat.Pair, error) {
-	m := c.Mat.Build(Alpha(c.Alpha).Len())
+	m := c.Matrix(c.Mat)
+	al := c.LibAligner(m)
+	if c.PreMat != nil {
+		final := m
+		pre := c.Matrix(*c.PreMat)
+		m = pre // the object the aligner value refers to
+		al = c.LibAligner(m)
+		pc := c
+		pc.R, pc.Q = c.PreR, c.PreQ
+		pr, pq := pc.Seqs()
+		al.Align(pr, pq) // result irrelevant
+		for i := range m {
+			copy(m[i], final[i])
+		}
+	}
 	r, q := c.Seqs()
-	ps, err := c.LibAligner(m).Align(r, q)
+	ps, err := al.Align(r, q)
 	if err != nil {
 		return nil, nil, err
 	}
